@@ -138,6 +138,7 @@ void qb_log_format_fini(void);
 const char * qb_log_priority2str(uint8_t priority);
 size_t qb_vsnprintf_serialize(char *serialize, size_t max_len, const char *fmt, va_list ap);
 size_t qb_vsnprintf_deserialize(char *string, size_t str_len, const char *buf);
+size_t qb_vsnprintf_deserialize_n(char *string, size_t str_len, const char *buf, size_t buf_len);
 
 void qb_log_target_format_static(int32_t target, const char * format, char *output_buffer);
 
